@@ -60,8 +60,10 @@ def shards(tier, seed):
         for scb_ in ("ok", "send_on_connected", "slow_connected", "raise"):
             if not (kind == "actisense" and scb_ == "send_on_connected"):
                 out.append({"name": f"{kind}-reset_at_accept-{scb_}", "kind": kind, "what": "fault", "fault": "reset_at_accept", "scb": scb_, "tier": tier, "seed": seed})
-        for fault in ("eof", "reset", "garbage_eof", "write_error", "eof_midpacket", "busy_reply", "garbage_overrun"):
-            if kind == "waveshare" and fault in ("eof", "garbage_eof", "eof_midpacket"):
+        for fault in ("eof", "reset", "garbage_eof", "write_error", "eof_midpacket", "busy_reply", "garbage_overrun", "eof_while_send_blocked"):
+            if kind == "waveshare" and fault in ("eof", "garbage_eof", "eof_midpacket", "eof_while_send_blocked"):
+                continue
+            if kind == "actisense" and fault == "eof_while_send_blocked":
                 continue
             if fault == "busy_reply" and kind != "ebyte":
                 continue            # 'Sorry,Limited' is what an ECAN/EByte gateway answers when it has no free TCP slot
@@ -143,6 +145,12 @@ def fault_session(kind, fault, step, settle=40.0, scb="ok", second=None, mapping
                 # unterminated garbage beyond the reader's 64 KiB line limit: readline() fails with ValueError
                 # (LimitOverrunError), the link itself stays up
                 c.feed(bytes((0x41 + (i * 7) % 50) for i in range(70_000)))
+            elif fault == "eof_while_send_blocked":
+                # the gateway stops reading (a send() of the application stays parked in drain(), for good) and a moment later
+                # ends its stream: an orderly end of stream does not fail the parked drain(). The client reconnects all the same
+                c.pause_plan = [10 ** 8]
+                sim.spawn("send", make_send_message(kind))
+                loop.call_later(0.05, c.feed_eof)
             elif fault == "write_error":
                 c.fail_write_after = 0
                 c.fail_exc = simgw.link_loss(kind, write=True)
@@ -523,6 +531,10 @@ def run_shard(spec, acc):
         steps = steps[:30] + steps[30::3]
     seconds = ["reset", "eof", "write_error"] if kind != "waveshare" else ["reset", "write_error"]
     if kind == "actisense":
+        seconds = ["reset", "eof"]
+    if fault == "eof_while_send_blocked":
+        # the parked send() keeps the send lock on the old, never closed transport: a second fault that is injected THROUGH
+        # a send cannot happen (what becomes of later sends is C19's matter); faults of the read side can
         seconds = ["reset", "eof"]
     for k_, step in enumerate(steps):
         by = k_ % 3 == 2            # every third session: an untouched second client in the same process must not notice anything
